@@ -13,10 +13,10 @@ import (
 type c05Case struct {
 	Fn   string `json:"fn"`
 	Ref  string `json:"ref"`
-	Root string `json:"root"`           // typed | value | generic | nil (location only)
-	Kind string `json:"kind"`           // kind of the designated node (or "dangling-document" / "dangling-pointer")
-	Base string `json:"base,omitempty"` // root location when it is not the usual one (dangling root locations)
-	Cont bool   `json:"cont,omitempty"` // ContinueOnError set in the options
+	Root string `json:"root"`                    // typed | value | generic | nil (location only)
+	Kind string `json:"kind"`                    // kind of the designated node (or "dangling-document" / "dangling-pointer")
+	Base string `json:"base,omitempty"`          // root location when it is not the usual one (dangling root locations)
+	Cont bool   `json:"cont,omitempty"`          // ContinueOnError set in the options
 	JSON bool   `json:"ref_from_json,omitempty"` // the reference value is decoded from JSON instead of built with MustCreateRef
 }
 
